@@ -703,6 +703,43 @@ def run_case(case, R):
     elif k == 'reg': case_reg(R, T, I, float(case['t']), float(case['p']))
     elif k == 'ssf': case_ssf(R, T, I, [float(h) for h in case['h']], float(case['p1']), None if case['p2'] is None else float(case['p2']))
     else: raise HarnessError('unknown case kind %r' % k)
+    purity(R, T, case)
+
+
+def _same(a, b):
+    if isinstance(a, tuple) or isinstance(b, tuple):
+        return isinstance(a, tuple) and isinstance(b, tuple) and len(a) == len(b) and all(_same(x, y) for x, y in zip(a, b))
+    if a is None or b is None: return a is None and b is None
+    return float(a) == float(b) or (float(a) != float(a) and float(b) != float(b))
+
+
+def purity(R, T, case):
+    """Call history: the same state evaluated again after a call at a different state (and with the other bounds
+    flag) gives the same answer."""
+    k = case['k']
+    calls = []
+    if k in ('liq', 'stm'):
+        t, p = float(case['t']), float(case['p'])
+        f = T.cowat if k == 'liq' else T.supst
+        calls = [(f, (t, p), {}, (t * 0.97 + 1.0, p * 1.03), {'bounds': True}), (T.region, (t, p), {}, (t + 40.0, p * 0.5), {})]
+    elif k == 'sat':
+        calls = [(T.sat, (float(case['t']),), {}, (float(case['t']) * 0.5 + 1.0,), {'bounds': True})]
+    elif k == 'tsat':
+        calls = [(T.tsat, (float(case['p']),), {}, (float(case['p']) * 0.7,), {'bounds': True})]
+    elif k == 'ssf':
+        h = [float(x) for x in case['h']]
+        p1 = float(case['p1']); p2 = None if case['p2'] is None else float(case['p2'])
+        a0 = (h[0], p1) if p2 is None else (h[0], p1, p2)
+        calls = [(T.separated_steam_fraction, a0, {}, (h[-1] * 0.5 + 1e5, min(5e6, p1 * 1.5)), {})]
+    for f, args, kw, other, okw in calls:
+        try:
+            a = f(*args, **kw)
+            try: f(*other, **okw)
+            except Exception: pass
+            b = f(*args, **kw)
+        except Exception:
+            continue
+        R.check(_same(a, b), 'purity:' + f.__name__, '%s%r = %r, and %r when asked again after %s%r %r' % (f.__name__, args, a, b, f.__name__, other, okw))
 
 
 def finish(tier, seed, total):
